@@ -184,6 +184,10 @@ def _run_in_slot(h, res, slot_dir, log, logdir):
     def pre():
         os.setsid()
         resource.setrlimit(resource.RLIMIT_AS, (mem, mem))
+        try:  # CBMC recurses deeply over large expressions; the default 8 MiB stack makes it segfault (status 139)
+            resource.setrlimit(resource.RLIMIT_STACK, (resource.RLIM_INFINITY, resource.RLIM_INFINITY))
+        except (ValueError, OSError):
+            pass
 
     os.makedirs(logdir, exist_ok=True)
     res.log_path = os.path.join(logdir, name.replace("::", "__") + ".log")
